@@ -33,7 +33,7 @@ type c01Case struct {
 func c01Hooks(early bool) a2j.Hooks {
 	if early {
 		hosts := map[string]bool{"Block": true, "Defs": true, "Struct": true, "Interface": true}
-		return a2j.Hooks{EarlyAdd: true, CloneShared: true, LitViaFunc: true, UseFunc: func(int, string) bool { return true },
+		return a2j.Hooks{EarlyAdd: true, CloneShared: true, LitViaFunc: true, NamesTable: true, UseFunc: func(int, string) bool { return true },
 			// comments may differ between the trees: put some in, built the way generators build doc text
 			Items: func(site int, name string, items []jen.Code) []jen.Code {
 				if !hosts[name] || site%3 != 0 {
@@ -68,7 +68,7 @@ func runC01(r *ev.Recorder) {
 	r.Rule = "(i) corpus: every .go file (testdata and _ directories excluded) below GOROOT/src of the installed toolchain and below the repository itself (thorough: also /opt/veriftools/go1.26.8/src) - a complete enumeration of a fixed finite set in sorted order - " +
 		"is parsed, translated construct by construct into DSL calls (internal/a2j: the element the README documents for each construct), rendered with File.Render, re-parsed, and both trees compared in canonical form " +
 		"(internal/norm: positions, comments, redundant parentheses and empty statements dropped; literals by value; all-keyed composite literals as key-sorted lists and conventional struct tags as key-sorted maps, the documented ordering of Dict and Tag). " +
-		"Every fourth file (thorough: every file) is also translated with each declaration added to the File before it is completed, with the ...Func variant at every list site, with every selector chain a.b.c built once and Clone()d at each use, and with every literal built through LitFunc/LitRuneFunc from a callback reading a cursor that is overwritten straight after the constructing call. (ii) generated programs: see coverage.generated; and 13 deep or long shapes (else-if chains, nested calls / parentheses / blocks / function literals / composite literals / switches, operand and selector chains) of 25..800 links. Skips are counted with their reason, never silent. distinct_nontrivial = distinct files / programs translated and compared (each contains at least one declaration)"
+		"Every fourth file (thorough: every file) is also translated with each declaration added to the File before it is completed, with the ...Func variant at every list site, with every selector chain a.b.c built once and Clone()d at each use, with the package names stated through one ImportNames table that is overwritten right afterwards, and with every literal built through LitFunc/LitRuneFunc from a callback reading a cursor that is overwritten straight after the constructing call. (ii) generated programs: see coverage.generated; and 13 deep or long shapes (else-if chains, nested calls / parentheses / blocks / function literals / composite literals / switches, operand and selector chains) of 25..800 links. Skips are counted with their reason, never silent. distinct_nontrivial = distinct files / programs translated and compared (each contains at least one declaration)"
 	r.Assume = []string{"files with dot imports are skipped (uses of a dot import cannot be found syntactically), as are files importing one path twice (not expressible: the import table is keyed by path) and files that do not parse",
 		"go/parser, go/printer and go/constant define syntax trees and literal values"}
 
